@@ -1604,6 +1604,14 @@ impl FunctionCompiler<'_> {
                     self.exits.insert(scope_id, exit_block);
                 }
 
+                // a loop has no defers of its own, but `break` and `continue` unwind the frames of
+                // the blocks inside the loop down to this one (and no further). the condition is
+                // part of the loop: a `break` in it names this loop too
+                self.defer_stack.push(DeferFrame {
+                    id: scope_id,
+                    defers: Vec::new(),
+                });
+
                 self.builder.ins().jump(header_block, &[]);
                 self.builder.switch_to_block(header_block);
                 // don't seal the header yet
@@ -1620,13 +1628,6 @@ impl FunctionCompiler<'_> {
 
                 self.builder.switch_to_block(body_block);
                 self.builder.seal_block(body_block);
-
-                // a loop has no defers of its own, but `break` and `continue` unwind the frames of
-                // the blocks inside the loop down to this one (and no further)
-                self.defer_stack.push(DeferFrame {
-                    id: scope_id,
-                    defers: Vec::new(),
-                });
 
                 self.compile_expr(body);
 
